@@ -74,9 +74,10 @@ def pendingAfter (a : Agent) (now tid : Nat) : List Pending :=
   (a.pending.filter (unexpired now)).filter (·.tid != tid)
 
 /-- the hypothesis of `C02_response_needs_outstanding`: the response's transaction id has no outstanding
-entry, or the outstanding entry was sent on another network type or to another address -/
+entry, or the outstanding entry was sent on another network type, or to another address than the response
+came from (`src`), or from another local address than the one the response arrived on (`l.addr`) -/
 def NoSymmetricOutstanding (a : Agent) (now : Nat) (l : Cand) (src tid : Nat) : Prop :=
-  ∀ pd ∈ outstanding a now tid, pd.net ≠ l.net ∨ pd.dest ≠ src
+  ∀ pd ∈ outstanding a now tid, pd.net ≠ l.net ∨ pd.dest ≠ src ∨ pd.src ≠ l.addr
 
 instance (a : Agent) (now : Nat) (l : Cand) (src tid : Nat) : Decidable (NoSymmetricOutstanding a now l src tid) := by
   unfold NoSymmetricOutstanding; infer_instance
@@ -110,8 +111,8 @@ theorem handleSuccess_no_match (a : Agent) (now : Nat) (m : Msg) (l r : Cand) (s
   cases ho : outstanding a now m.tid with
   | none => rfl
   | some pd =>
-    have : (!(pd.net == l.net && pd.dest == src)) = true := by
-      rcases h pd ho with h | h <;> simp [h]
+    have : (!(pd.net == l.net && pd.dest == src && pd.src == l.addr)) = true := by
+      rcases h pd ho with h | h | h <;> simp [h]
     simp [this]
 
 /-- … and neither when the pair (local, remote) does not exist. -/
